@@ -153,6 +153,10 @@ const (
 	lossHangTime = 10 * time.Second
 )
 
+// maxLossItvlDurS is the longest interval of a loss pattern in seconds (math.MaxInt32, 68 years).
+// With it neither the digits of a duration nor the sum of the durations of a pattern can leave the int range.
+const maxLossItvlDurS = 1<<31 - 1
+
 // LossItvls is loss intervals for one BaseURL
 type LossItvls struct {
 	Itvls []LossItvl
@@ -211,6 +215,9 @@ func CreateLossItvls(pattern string) (LossItvls, error) {
 				return LossItvls{}, fmt.Errorf("invalid loss pattern %q", pattern)
 			}
 			dur = dur*10 + int(digit)
+			if dur > maxLossItvlDurS {
+				return LossItvls{}, fmt.Errorf("invalid loss pattern %q: interval longer than %d s", pattern, maxLossItvlDurS)
+			}
 		}
 	}
 	if state != lossUnknown {
